@@ -20,8 +20,11 @@ VARIABLES now, pc, wake, started, lastReset,
           retry,                         \* the retry number the next run will get
           pStart, pEnd, pOut, pDelay, runs, rs,  \* ghosts: previous run (pDelay: the delay its error asked for); rs = lastReset as seen when the run started
           stopped,                       \* the stopper is set
-          changes, fails, conf
-vars == <<now, pc, wake, started, lastReset, out, retry, pStart, pEnd, pOut, pDelay, runs, rs, stopped, changes, fails, conf>>
+          changes, fails, conf,
+          respawned,                     \* ghost: when the current instance was spawned by a re-match (0: the first instance)
+          matching,                      \* the object matches the timer's filters (as of the last processed event)
+          forever                        \* the instance has ended on its own (no interval and no idle, or a permanent failure): never again
+vars == <<now, pc, wake, started, lastReset, out, retry, pStart, pEnd, pOut, pDelay, runs, rs, stopped, changes, fails, conf, respawned, matching, forever>>
 
 Interval == conf.interval  Sharp == conf.sharp  Idle == conf.idle  InitDelay == conf.initdelay  Backoff == conf.backoff
 Max(a, b) == IF a >= b THEN a ELSE b
@@ -29,7 +32,7 @@ Max(a, b) == IF a >= b THEN a ELSE b
 Init == /\ conf \in ConfSet
         /\ now = 0 /\ pc = "init" /\ wake = conf.initdelay /\ started = 0 /\ lastReset = 0
         /\ out = [k |-> "ok", d |-> 0] /\ retry = 0
-        /\ pStart = 0 /\ pEnd = 0 /\ pOut = "none" /\ pDelay = 0 /\ runs = 0 /\ rs = 0 /\ changes = 0 /\ fails = 0 /\ stopped = FALSE
+        /\ pStart = 0 /\ pEnd = 0 /\ pOut = "none" /\ pDelay = 0 /\ runs = 0 /\ rs = 0 /\ changes = 0 /\ fails = 0 /\ stopped = FALSE /\ respawned = 0 /\ matching = TRUE /\ forever = FALSE
 
 Outcomes == {[k |-> "ok", d |-> 0], [k |-> "perm", d |-> 0], [k |-> "exc", d |-> 0]} \cup {[k |-> "temp", d |-> d] : d \in Delays}
 
@@ -42,7 +45,7 @@ HeadWith(dur, o) ==
      ELSE /\ (o.k # "ok" => fails < MaxFails) /\ fails' = IF o.k = "ok" THEN fails ELSE fails + 1
           /\ pc' = "run" /\ started' = now /\ wake' = now + dur /\ out' = o /\ runs' = runs + 1 /\ rs' = lastReset
           /\ UNCHANGED <<retry, pStart, pEnd, pOut, pDelay>>
-  /\ UNCHANGED <<now, lastReset, changes, conf, stopped>>
+  /\ UNCHANGED <<now, lastReset, changes, conf, stopped, respawned, matching, forever>>
 LoopHead == \E dur \in Durs : \E o \in Outcomes : HeadWith(dur, o)
 
 End ==
@@ -58,19 +61,39 @@ End ==
      ELSE IF Idle > 0 THEN (IF lastReset <= started THEN pc' = "poll" /\ wake' = now + Idle      \* poll until something changes
                             ELSE pc' = "idle" /\ wake' = now)                                \* changed meanwhile: straight to the idle gate
      ELSE pc' = "done" /\ wake' = now
-  /\ UNCHANGED <<now, started, lastReset, out, runs, rs, changes, fails, conf, stopped>>
+  /\ forever' = (forever \/ (pc' = "done" /\ ~stopped))          \* ended on its own
+  /\ UNCHANGED <<now, started, lastReset, out, runs, rs, changes, fails, conf, stopped, respawned, matching>>
 
-Change == /\ changes < MaxChanges /\ changes' = changes + 1 /\ lastReset' = now
-          /\ UNCHANGED <<now, pc, wake, started, out, retry, pStart, pEnd, pOut, pDelay, runs, rs, fails, conf, stopped>>
+\* Any processed event of a matching object whose instance has been stopped and has fully ended spawns a NEW instance (unless the old
+\* one had ended on its own): with its initial delay, and the event is an essential change of the object. While the last run of the old
+\* instance is still in progress nothing is spawned (by the known family F18 of C09 nothing is later either, unless another event comes).
+CanRespawn == stopped /\ pc = "done" /\ ~forever
+Respawn ==
+  /\ CanRespawn
+  /\ stopped' = FALSE /\ pc' = "init" /\ wake' = now + InitDelay /\ lastReset' = now /\ retry' = 0 /\ respawned' = now
+  /\ pOut' = "none"                      \* the new instance has no previous run (pEnd stays: no overlap across instances either)
+  /\ UNCHANGED <<now, started, out, pStart, pEnd, pDelay, runs, rs, fails, conf, forever>>
+Change == /\ changes < MaxChanges /\ changes' = changes + 1
+          /\ IF matching /\ CanRespawn THEN Respawn /\ UNCHANGED matching
+             ELSE lastReset' = now /\ UNCHANGED <<now, pc, wake, started, out, retry, pStart, pEnd, pOut, pDelay, runs, rs, fails, conf, stopped, respawned, matching, forever>>
 
-Stop ==   \* the stopper is set: every sleep is interrupted, a running handler is left to finish
-  /\ ~stopped /\ stopped' = TRUE
+Stop ==   \* the object is marked for deletion: the stopper is set, every sleep is interrupted, a running handler is left to finish
+  /\ ~stopped /\ stopped' = TRUE /\ matching' = FALSE           \* (an object that is being deleted never matches again)
   /\ IF pc \in {"done", "run"} THEN UNCHANGED <<pc, wake>> ELSE pc' = "done" /\ wake' = now
-  /\ UNCHANGED <<now, started, lastReset, out, retry, pStart, pEnd, pOut, pDelay, runs, rs, changes, fails, conf>>
+  /\ UNCHANGED <<now, started, lastReset, out, retry, pStart, pEnd, pOut, pDelay, runs, rs, changes, fails, conf, respawned, forever>>
+StopFx == /\ IF stopped \/ pc \in {"done", "run"} THEN UNCHANGED <<pc, wake>> ELSE pc' = "done" /\ wake' = now
+          /\ stopped' = TRUE
+\* the object stops matching the filters: the instance is stopped like on deletion
+Unmatch == /\ matching /\ matching' = FALSE /\ StopFx
+           /\ UNCHANGED <<now, started, lastReset, out, retry, pStart, pEnd, pOut, pDelay, runs, rs, changes, fails, conf, respawned, forever>>
+\* ... and matches again
+Rematch == /\ ~matching /\ matching' = TRUE
+           /\ IF CanRespawn THEN Respawn /\ UNCHANGED changes
+              ELSE lastReset' = now /\ UNCHANGED <<now, pc, wake, started, out, retry, pStart, pEnd, pOut, pDelay, runs, rs, changes, fails, conf, stopped, respawned, forever>>
 
 Urgent == (pc = "run" /\ now >= wake) \/ (pc \in {"init", "idle", "errsleep", "sleep", "poll"} /\ now >= wake)
 Tick == /\ now < Horizon /\ ~Urgent /\ now' = now + 1
-        /\ UNCHANGED <<pc, wake, started, lastReset, out, retry, pStart, pEnd, pOut, pDelay, runs, rs, changes, fails, conf, stopped>>
+        /\ UNCHANGED <<pc, wake, started, lastReset, out, retry, pStart, pEnd, pOut, pDelay, runs, rs, changes, fails, conf, stopped, respawned, matching, forever>>
 
 Next == LoopHead \/ End \/ Change \/ Tick
 Spec == Init /\ [][Next]_vars
@@ -88,4 +111,6 @@ AfterOkSharp == (JustStarted /\ runs > 1 /\ pOut \in {"ok", "perm"} /\ Interval 
 AfterTemp == (JustStarted /\ runs > 1 /\ pOut = "temp") => started = Max(pEnd + pDelay, IF Idle > 0 THEN rs + Idle ELSE 0)
 AfterExc  == (JustStarted /\ runs > 1 /\ pOut = "exc") => started = Max(pEnd + Backoff, IF Idle > 0 THEN rs + Idle ELSE 0)
 PermanentEndsIt == ~(JustStarted /\ runs > 1 /\ pOut = "perm")       \* C11 for timers
+\* a re-spawned instance starts like a first one: not before its initial delay, not within the idle time after the re-match
+RespawnedFirst == (JustStarted /\ pOut = "none" /\ respawned > 0) => started >= respawned + InitDelay /\ (Idle > 0 => started - rs >= Idle)
 =============================================================================
